@@ -76,15 +76,22 @@ def run_binary(args, env_dirs, extra_env=None, timeout=20, cwd=None, arg0=None, 
     env['QUADLET_UNIT_DIRS'] = env_dirs
     if extra_env:
         env.update(extra_env)
-    pre = None
+    def pre():
+        # every run of the binary under test: bounded address space (an allocation loop aborts instead of eating the host)
+        import resource
+        resource.setrlimit(resource.RLIMIT_AS, (core.MEM_LIMIT, core.MEM_LIMIT))
     if as_uid is not None:
         def pre():
+            import resource
+            resource.setrlimit(resource.RLIMIT_AS, (core.MEM_LIMIT, core.MEM_LIMIT))
             # drop privileges: permission faults (EACCES/EPERM) exist for unprivileged users only
             os.setgroups([])
             os.setgid(as_uid)
             os.setuid(as_uid)
     elif fsize_limit is not None:
         def pre():
+            import resource as _r
+            _r.setrlimit(_r.RLIMIT_AS, (core.MEM_LIMIT, core.MEM_LIMIT))
             # every file this process writes may grow to fsize_limit bytes only; the write that crosses the limit is
             # accepted partially and the next one fails with EFBIG (SIGXFSZ ignored): a sink with a byte budget
             import resource, signal
